@@ -197,7 +197,9 @@ impl<'tcx> Cx<'tcx> {
                                 .get(f)
                                 .map(|s| s.to_string())
                                 .unwrap_or_else(|| f.as_u32().to_string());
-                            format!(".^{}", n)
+                            // upvar index first: rules identify a captured variable by position
+                            // (operand i of the closure aggregate in the parent), the name is for display
+                            format!(".^{}:{}", f.as_u32(), n)
                         }
                         _ => format!(".{}", f.as_u32()),
                     };
